@@ -4,6 +4,7 @@ import HtpModel.Lemmas.Driver
 import HtpModel.Lemmas.Consumed
 import HtpModel.Lemmas.ConsumedOut
 import HtpModel.Lemmas.BufInv
+import HtpModel.Lemmas.OutConsumed
 
 namespace Htp.C09
 open Htp.Conn Htp.Gen
@@ -182,5 +183,23 @@ example :
     let c : Conn := { inState := .line, inn := { status := STREAM_DATA, tx := some 0 }, txs := [some { uid := 0 }] }
     (reqData {} (some (b!"GET /")) 5 c).2 = STREAM_DATA ∧ (reqData {} (some (b!"GET /")) 5 c).1.inn.read = 5 ∧
     (reqData {} (some (b!"GET /")) 5 c).1.inn.len = 5 := by decide
+
+/-- **C09 (DATA means the whole chunk was consumed), whole response data call**: the same for htp_connp_res_data - from ANY state, with any
+    chunk of data and any callback policy, STREAM_DATA implies read = len. The loop invariant on this side is `WFBO` (0 <= consume,
+    0 <= read <= len <= |chunk|, line buffer within the hard limit; `consume <= read` is not part of it because the response parser
+    un-reads); hypotheses: the buffer bound carried from call to call and that every pass of the call finds the counted body states
+    (Content-Length body, chunk data) still owing bytes. -/
+theorem C09_res_call_data_means_consumed (cfg : Cfg) (d : Bytes) (c : Conn) (hs : (d.length : Int) < 18446744073709551616)
+    (hb : outBufLen c ≤ cfg.fieldLimitHard)
+    (ho : ∀ c', CallReachO cfg (resStoreChunk (some d) d.length c) c' → OwedPosO c')
+    (hdata : (resData cfg (some d) d.length c).2 = STREAM_DATA) :
+    (resData cfg (some d) d.length c).1.out.read = (resData cfg (some d) d.length c).1.out.len :=
+  resData_data_consumed cfg d c hs hb ho hdata
+
+/-- non-vacuity: an unterminated status line is answered with STREAM_DATA, read = len = 10 -/
+example :
+    let c : Conn := { outState := .line, out := { status := STREAM_DATA, tx := some 0 }, txs := [some { uid := 0 }] }
+    (resData {} (some (b!"HTTP/1.1 2")) 10 c).2 = STREAM_DATA ∧ (resData {} (some (b!"HTTP/1.1 2")) 10 c).1.out.read = 10 ∧
+    (resData {} (some (b!"HTTP/1.1 2")) 10 c).1.out.len = 10 := by decide
 
 end Htp.C09
